@@ -108,6 +108,17 @@ func checkC12(c C12Case) *Violation {
 			}
 		}
 	}
+	// 3a. stdin redirected from a regular file, and the FILE argument naming standard input
+	if c.HasInput {
+		r := Run{Argv: append([]string{}, c.Argv...), Stdin: c.Input, StdinFile: true, Files: c.Files}.Exec()
+		if !sameOutcome(ref, r) {
+			return vio("input-path:stdin-from-file", "%s: `< file` differs from a pipe\npipe: %s\n< file: %s%s", what, show(ref), show(r), ctx)
+		}
+		r = Run{Argv: append(append([]string{}, c.Argv...), "/dev/stdin"), Stdin: c.Input, Files: c.Files}.Exec()
+		if !sameOutcome(ref, r) {
+			return vio("input-path:dev-stdin", "%s /dev/stdin differs from reading standard input\nstdin: %s\n/dev/stdin: %s%s", what, show(ref), show(r), ctx)
+		}
+	}
 	// 3b. an empty input is an empty input, whether it is an empty pipe, an empty file or /dev/null
 	if c.HasInput && c.Input == "" {
 		r := Run{Argv: append([]string{}, c.Argv...), NoStdin: true}.Exec()
